@@ -8,7 +8,7 @@ tmo = int(sys.argv[4]) if len(sys.argv) > 4 else 3000
 pats = sys.argv[5:]
 specs = load_specs(); w = make_world(specs)
 fq = [k for k in specs.contracts if k.endswith(fq_s)][0]
-def fake(obs, ax, timeout_ms, seed, jobs):
+def fake(obs, ax, timeout_ms, seed, jobs, single_attempt=()):
     for ob in obs:
         if sel in ob.oid:
             hyps, g = split_goal(ob.goal)[part]
